@@ -193,7 +193,7 @@ PROPS.update({
                    "ends, immediate and delayed; the harness keeps its own graph of the connect calls and predicts receiver, arrival time, header "
                    "fields and the path enumeration of every gate.",
         level_note="Trusted: the harness graph model; channels are kept idle by spacing so only C08's clauses are exercised. A rejected connect ends the build (the gate stays locked after the panic).",
-        runs={"quick": 1000000, "thorough": 50000000},
+        runs={"quick": 1000000, "thorough": 30000000},
         rule="chain shapes x connect permutations/orientations x channel placement x both directions x send / send_in; distinct = distinct "
              "program hash; non-trivial = a chain of >= 3 gates exists and at least one message was sent",
         fault_probes=["illegal_connect_rejected"],
